@@ -74,7 +74,8 @@ def stored_as_given(ctx: Ctx) -> None:
     m = ctx.model
     # setters of the value records store their argument
     n = 0
-    for q, fld in [("Point.x", "_x"), ("Point.y", "_y"), ("Shape.w", "_w"), ("Shape.h", "_h")]:
+    for q, fld in [("Point.x", "_x"), ("Point.y", "_y"), ("Shape.w", "_w"), ("Shape.h", "_h"), ("Rectangle.center", "_center"), ("Rectangle.shape", "_shape"),
+                   ("Rectangle.fixed", "_fixed"), ("Rectangle.hard", "_hard"), ("Rectangle.region", "_region"), ("Rectangle.location", "_location")]:
         cls_name, prop = q.split(".")
         ci = m.cls(GEOM, cls_name)
         setters = [f for f in m.all_functions(include_inlined=True) if f.cls is ci and f.kind == "setter" and f.name == prop]
@@ -89,7 +90,17 @@ def stored_as_given(ctx: Ctx) -> None:
                 ctx.report(f.where, f"setter-not-identity {q}", f"the setter of {q} does not store the value it is given: a coordinate that is rounded or "
                            "clamped on the way in moves a centre while the sizes stay exact, so pieces of a split / grid no longer tile their parent",
                            lineno=f.node.lineno)
-    ctx.require(n >= 2, "Point coordinate setters not found")
+    ctx.require(n >= 4, "coordinate / rectangle setters not found")
+    # and the getters of the same fields hand the stored object out (no copy with adjusted numbers)
+    for q in ["Point.x", "Point.y", "Rectangle.center", "Rectangle.shape", "Rectangle.region"]:
+        cls_name, prop = q.split(".")
+        ci = m.cls(GEOM, cls_name)
+        getters = [f for f in m.all_functions(include_inlined=True) if f.cls is ci and f.kind == "property" and f.name == prop]
+        for f in getters:
+            c = canon_function(f, m, None, expand=True)
+            ctx.site(f.where, f"{q} getter returns the stored value")
+            if not (len(c) == 1 and c[0][0] == "ret" and c[0][1][0] == "a" and c[0][1][1] == S_):
+                ctx.report(f.where, f"getter-not-identity {q}", f"the getter of {q} does not return the stored value itself", lineno=f.node.lineno)
     # nothing in the library rounds or truncates a number
     hits = []
     n_fn = 0
@@ -128,6 +139,25 @@ def module_setters_pure(ctx: Ctx) -> None:
     ctx.require(n >= 1, "Module.center setter not found")
 
 
+def number_test(ctx: Ctx) -> None:
+    m = ctx.model
+    fn = None
+    for mi in m.modules.values():
+        if "is_number" in mi.functions and mi.functions["is_number"].cls is None and mi.relpath.startswith("frame/"):
+            fn = mi.functions["is_number"]
+    ctx.require(fn is not None, "is_number not found")
+    c = canon_function(fn, m, None, expand=True)
+    n_ = ("p", 0)
+    real = ("c", ("g", "isinstance"), (n_, ("a", ("g", "numbers"), "Real")), ())
+    from framelint.canon import mk_or
+    intfloat = mk_or([("c", ("g", "isinstance"), (n_, ("g", "int")), ()), ("c", ("g", "isinstance"), (n_, ("g", "float")), ())])
+    ctx.site(fn.where, "is_number(n) == n is a real number (int or float)")
+    if c not in ((("ret", real),), (("ret", intfloat),)):
+        ctx.report(fn.where, "is-number " + "; ".join(show(x) for x in c)[:160], "is_number is not 'the value is an int or a float': the readers' numeric checks "
+                   "(coordinates, areas, weights) then admit or refuse other values than the documented ones", lineno=fn.node.lineno)
+
+
+_NUM = ("SHARED", "is_number(n) is the plain type test 'n is an int or a float' that every reader relies on for coordinates, areas and weights")
 _TOL = ("SHARED", "tolerance primitives: set_epsilon stores the distance tolerance and defaults the area tolerance to its square root, the getters "
         "hand the stored values out, almost_eq is the absolute test abs(a - b) < eps, overlap is area_overlap > area tolerance")
 _STO = ("SHARED", "numbers are carried as given: the coordinate setters of Point / Shape store their argument, and no library function rounds or "
@@ -138,5 +168,7 @@ for _p in ["C01", "C02", "C03", "C06", "C09", "C11", "C12", "C15", "C18", "C20"]
     rule(_p, "P1.tolerance-primitives", *_TOL, floor=5)(tolerance_primitives)
 for _p in ["C01", "C02", "C03", "C05", "C10", "C11", "C12", "C13", "C14", "C17", "C18"]:
     rule(_p, "P2.stored-as-given", *_STO, floor=3)(stored_as_given)
+for _p in ["C01", "C04", "C05", "C19"]:
+    rule(_p, "P4.number-test", *_NUM, floor=1)(number_test)
 for _p in ["C10", "C13", "C14"]:
     rule(_p, "P3.centre-setter", *_SET, floor=1)(module_setters_pure)
